@@ -618,3 +618,42 @@ pub fn rand_chain(rng: &mut Rng, n: usize) -> Expression {
     }
     balanced(&items)
 }
+
+/// Systematic sweep for NON-INJECTIVE resource keys (C10, C11, C04, C15): pairs of requests that are
+/// different but become equal if the case flag is folded into the pattern text with some affix, or if file
+/// names are "normalised".  Affixes are the short words of the source dictionary plus a few usual suspects.
+pub fn affix_programs() -> Vec<Expression> {
+    use Expression as E;
+    let mut affixes: Vec<String> = ["i", "/i", ":i", "I", "1", "0", "true", "false", "ci", "_ci", "-i", "\\", "*", ".", "/", " "].iter().map(|s| s.to_string()).collect();
+    for w in dict() { if w.chars().count() <= 3 && !affixes.contains(w) { affixes.push(w.clone()); } }
+    let mut out = vec![];
+    let wrap = |t: Test| op(Operator::Or(E::Test(t), E::Test(Test::True)));
+    let chain = |items: Vec<Expression>| { let mut it = items.into_iter(); let mut acc = it.next().unwrap(); for e in it { acc = op(Operator::And(acc, e)); } acc };
+    for base in ["foo", "src/lib", "a*"] {
+        for a in &affixes {
+            for (p2, _) in [(format!("{}{}", base, a), 0), (format!("{}{}", a, base), 1)] {
+                for (c1, c2) in [(true, false), (false, true), (false, false)] {
+                    let t1 = if c1 { Test::InsensitiveName(base.to_string()) } else { Test::Name(base.to_string()) };
+                    let t2 = if c2 { Test::InsensitivePath(p2.clone()) } else { Test::Path(p2.clone()) };
+                    out.push(chain(vec![wrap(t1), wrap(t2), E::Action(if a.len() % 2 == 0 { Action::Print } else { Action::PrintNull })]));
+                }
+            }
+        }
+    }
+    // file names under different spellings: distinct strings are distinct destinations
+    for base in ["out", "d/out", "../out", "logs./today", "a/b/c"] {
+        let b = base.to_string();
+        let vars = vec![format!("./{}", b), format!("{}/", b), b.replacen('/', "//", 1), b.replacen('/', "/./", 1), b.replace("./", ""),
+                        format!(".{}", b.trim_start_matches("../")), format!("{}/.", b), b.to_uppercase(), format!("{} ", b), format!("/{}", b)];
+        for v in vars {
+            if v == b || v.is_empty() { continue; }
+            for k in 0..3 {
+                let mk = |f: &str| match k { 0 => Action::FilePrint(f.to_string()), 1 => Action::FilePrintNull(f.to_string()),
+                                             _ => Action::FilePrintFormatted(f.to_string(), vec![FormatElement::Field(FormatField::NameWithoutStartingPoint), FormatElement::Special(FormatSpecial::Newline)]) };
+                out.push(chain(vec![E::Action(mk(&b)), E::Action(mk(&v))]));
+                out.push(chain(vec![E::Action(mk(&v)), E::Action(mk(&b)), E::Action(Action::FilePrint(v.clone()))]));
+            }
+        }
+    }
+    out
+}
